@@ -202,6 +202,15 @@ CHECKS = {
             'Names colliding with members of the snapshot type are excluded as the property says; '
             'snapshot.__dict__ is not manipulated directly.',
             'DESIGN.md section 3 / C17'),
+    'C20': ('exploration',
+            'property-based testing (Hypothesis): assignment histories over Transform2D/3D instances with '
+            'generated listeners; per-assignment oracle on the callback log and property reads',
+            'Randomised search with shrinking over transforms (default and explicit constructor arguments), '
+            'listener subscriptions and assignment histories (plain and augmented, vectors and tuples, 2D '
+            'rotations concentrated outside [0, 360)); after every assignment the read-back value, the exact '
+            'set of notified listeners, the carried argument and the isolation of other instances are checked.',
+            'NaN/inf rotations excluded; listeners do not re-enter the transforms.',
+            'DESIGN.md section 3 / C20'),
 }
 
 ALL = ['C%02d' % i for i in range(1, 21)]
